@@ -358,6 +358,28 @@ fn main() {
             });
         }
     }
+    // byte intrinsics: string_count_bytes / string_nth_byte at every index class (negative, 0, middle, last,
+    // len, beyond, i64 extremes), on literal, variable, run-time built strings and with the result in a local
+    let n_byte = if ctx.quick() { 45 } else { 500 };
+    for bi in 0..n_byte {
+        let (a, _, class) = &ps[(bi * 6113 + 5) % ps.len()];
+        if a.len() > 60 { continue; }
+        let len = a.len() as i64;
+        let mut idxs: Vec<i64> = vec![-1, 0, len - 1, len, len + 1, i64::MIN, i64::MAX, len / 2];
+        idxs.sort(); idxs.dedup();
+        let la = abra_lit(a, &mut ctx.rng);
+        jobs.push(Job { req: format!("str count {} #count", hex(a.as_bytes())), src: format!("let s = {la}\nlet n = string_count_bytes(s)\nprintln(n)\n"), form: "bytes", class, k: 1 + (bi % 8) as u32, a: a.clone(), b: String::new() });
+        for (j, n) in idxs.iter().enumerate() {
+            let (a1, a2) = split(a, &mut ctx.rng);
+            let src = match (bi + j) % 4 {
+                0 => format!("println(string_nth_byte({la}, {n}))\n"),
+                1 => format!("let s = {la}\nlet i = {n}\nlet b = string_nth_byte(s, i)\nprintln(b)\n"),
+                2 => format!("let s = {} .. {}\nprintln(string_nth_byte(s, {n}))\n", abra_lit(&a1, &mut ctx.rng), abra_lit(&a2, &mut ctx.rng)),
+                _ => format!("fn at(s: string, i: int) -> int {{\n  let b = string_nth_byte(s, i)\n  b\n}}\nprintln(at({la}, {n}))\n"),
+            };
+            jobs.push(Job { req: format!("str nth {} {n} #nth", hex(a.as_bytes())), src, form: "bytes", class, k: 1 + ((bi + j) % 8) as u32, a: a.clone(), b: n.to_string() });
+        }
+    }
     // frame condition: strings are immutable values — after `..` (and after println, which is `str(x) .. "\n"`)
     // the operands, aliases of them and containers sharing them still hold their bytes; operands are built at
     // run time (heap objects, not static literals), every budget 1..8
@@ -407,6 +429,13 @@ fn main() {
         if j.form == "frame" {
             return render_frame(&r);
         }
+        if j.form == "bytes" {
+            return match &r.outcome {
+                Outcome::Done => format!("ok {}", r.out.trim()),
+                Outcome::Error(k) => format!("err {k}"),
+                o => format!("other {}", o.tag()),
+            };
+        }
         render(j.form, &r)
     });
     for (j, imp) in jobs.iter().zip(results) {
@@ -415,6 +444,10 @@ fn main() {
         ctx.count(&format!("budget:{}", j.k));
         let (ab, bb) = (j.a.as_bytes(), j.b.as_bytes());
         let common = ab.iter().zip(bb.iter()).take_while(|(x, y)| x == y).count();
+        if j.form == "bytes" {
+            let n: i128 = j.b.parse().unwrap_or(-7);
+            ctx.count(if j.b.is_empty() { "bytes:count" } else if n < 0 { "bytes:index-negative" } else if n >= ab.len() as i128 { "bytes:index-past-end" } else { "bytes:index-in-range" });
+        } else {
         ctx.count(if ab == bb { "branch:equal" }
                   else if common == ab.len() || common == bb.len() { "branch:exhausted" }
                   else if ab[common] < bb[common] { "branch:byte-less" } else { "branch:byte-greater" });
@@ -422,7 +455,13 @@ fn main() {
         if ab.len() + bb.len() + 1 > j.k as usize { ctx.count("sliced:concat-spans-budgets"); }
         if common + 1 > j.k as usize { ctx.count("sliced:compare-spans-budgets"); }
         if !j.a.is_ascii() || !j.b.is_ascii() { ctx.count("bytes:non-ascii"); }
-        let spec = if j.form == "frame" {
+        }
+        let spec = if j.form == "bytes" {
+            if j.b.is_empty() { format!("ok {}", ab.len()) } else {
+                let n: i64 = j.b.parse().unwrap();
+                if n >= 0 && (n as u128) < ab.len() as u128 { format!("ok {}", ab[n as usize]) } else { "err oob".to_string() }
+            }
+        } else if j.form == "frame" {
             let cat = |x: &[u8], y: &[u8]| { let mut v = x.to_vec(); v.extend_from_slice(y); v };
             let m = cat(ab, bb);
             format!("a={} b={} r={} aa={} m={} r1={} r2={}", hex(ab), hex(bb), hex(&m), hex(&cat(ab, ab)), hex(&m), hex(&cat(&m, ab)), hex(&cat(&m, bb)))
